@@ -285,7 +285,9 @@ impl<H: MsgHeader> Endpoint<H> {
         Ok(())
     }
 
-    /// Reads bytes from the socket into the given scatter/gather vectors.
+    /// Reads `len` bytes from the socket into a new buffer. A stream socket may deliver the
+    /// bytes in several pieces, so this loops until all of them have been received or the peer
+    /// has closed the connection.
     ///
     /// # Return:
     /// * - (number of bytes received, buf) on success
@@ -294,13 +296,21 @@ impl<H: MsgHeader> Endpoint<H> {
     /// * - SocketError: other socket related errors.
     pub fn recv_data(&mut self, len: usize) -> Result<(usize, Vec<u8>)> {
         let mut rbuf = vec![0u8; len];
-        let mut iovs = [iovec {
-            iov_base: rbuf.as_mut_ptr() as *mut c_void,
-            iov_len: len,
-        }];
-        // SAFETY: Safe because we own rbuf and it's safe to fill a byte array with arbitrary data.
-        let (bytes, _) = unsafe { self.sock.recv_with_fds(&mut iovs, &mut [])? };
-        Ok((bytes, rbuf))
+        let mut data_read = 0;
+        while data_read < len {
+            let mut iovs = [iovec {
+                iov_base: rbuf[data_read..].as_mut_ptr() as *mut c_void,
+                iov_len: len - data_read,
+            }];
+            // SAFETY: Safe because we own rbuf and it's safe to fill a byte array with arbitrary
+            // data.
+            let (bytes, _) = unsafe { self.sock.recv_with_fds(&mut iovs, &mut [])? };
+            if bytes == 0 {
+                break;
+            }
+            data_read += bytes;
+        }
+        Ok((data_read, rbuf))
     }
 
     /// Reads bytes from the socket into the given scatter/gather vectors with optional attached
